@@ -174,6 +174,49 @@ def run(tier, seed):
                     ck.violation(sig, ('blocks that share a transaction id: ' if shared else '') + '; '.join(problems), rp)
                 reqs.append(('store_run', [], ops))
                 wants.append((sorted([im(hid), sorted(im(t.id) for t in spec.BlockView(b).txs)] for (hid, _, _), b in zip(got, back)), rp))
+    # ---- a large store: ~1,300 blocks with two or three blocks at EVERY height, so that any paging of the reads by height,
+    #      row count or rowid meets equal-height siblings at its page boundaries
+    for probe in range(1 if tier == 'quick' else 3):
+        with chaingen.Env(period=5000) as env:
+            tg = chaingen.TreeGen(env, keys, rng)
+            n = tg.genesis
+            H = 560 if tier == 'quick' else rng.choice([1100, 2300])
+            for h in range(1, H + 1):
+                par = n
+                n = tg.extend(par, txs=[], fees=0, dt=60)
+                tg.extend(par, txs=[], fees=0, dt=61)
+                if h % 7 == probe:
+                    tg.extend(par, txs=[], fees=0, dt=62)
+            path = os.path.join(scratch, 'c08-large-%d.db' % probe)
+            with contextlib.redirect_stdout(io.StringIO()):
+                st = blockstore.BlockStore(path)
+                nodes = tg.nodes[1:]
+                for i in range(0, len(nodes), 400):
+                    st.write_blocks_to_disk([nd.block for nd in nodes[i:i + 400]])
+                st.close()
+                st = blockstore.BlockStore(path)
+                back = list(st.read_blocks_from_disk())
+                st.close()
+            os.unlink(path)
+            want_ids = sorted(nd.id for nd in tg.nodes)
+            got_ids = sorted(spec.sha256d(b.header.serialize()) for b in back)
+            ck.case(('large', probe), kind='large-store', sample={'blocks_written': len(tg.nodes), 'read_back': len(back), 'heights': H})
+            if want_ids != got_ids:
+                missing = [nd for nd in tg.nodes if nd.id not in set(got_ids)]
+                ck.violation('store-does-not-return-what-was-written',
+                             'a store of %d blocks (2-3 blocks at every height up to %d) returns %d blocks; first missing block '
+                             'is at height %s' % (len(tg.nodes), H, len(back), missing[0].height if missing else '?'),
+                             {'large': True, 'heights': H, 'probe': probe, 'seed': seed})
+            elif sorted(b.serialize() for b in back) != sorted(nd.view.bytes for nd in tg.nodes):
+                ck.violation('store-does-not-return-what-was-written', 'a block of the large store reads back with different content',
+                             {'large': True, 'heights': H, 'probe': probe, 'seed': seed})
+            else:
+                pos = {}
+                for i, b in enumerate(back):
+                    pos[spec.sha256d(b.header.serialize())] = i
+                if any(nd.parent is not None and pos[nd.parent.id] > pos[nd.id] for nd in tg.nodes):
+                    ck.violation('store-does-not-return-what-was-written', 'the large store returns a child before its parent',
+                                 {'large': True, 'heights': H, 'probe': probe, 'seed': seed})
     # ---- a block buffered by the miner thread while the network thread is flushing must not be lost
     import threading
     for probe in range(2 if tier == 'quick' else 6):
